@@ -259,6 +259,49 @@ func runC15(r *R) {
 		r.Check(n == 1, "C15-R5", fn, "queue.Unlock(stale…)", fn.Pos(), "stale locks are released", "stale locks are never released")
 	}
 
+	// ---- R7
+	r.Rule("C15-R7", "Pool.Create: the wp.creating entry added for an instance request is removed by the spawned goroutine on every path (also when the cloud Create call fails)", 1)
+	if fn := r.NeedFn("C15-R7", "(*"+wk+".Pool).Create"); fn != nil {
+		nIns := 0
+		allInstrs(fn, func(in ssa.Instruction) {
+			mu, ok := in.(*ssa.MapUpdate)
+			if !ok || !IsFieldLoad(mu.Map, wk+".Pool", "creating") {
+				return
+			}
+			nIns++
+			okDel := false
+			allInstrs(fn, func(x ssa.Instruction) {
+				g, isGo := x.(*ssa.Go)
+				if !isGo || !reachAvoiding(in, x, nil) {
+					return
+				}
+				cl := StaticCallee(g.Common())
+				if cl == nil {
+					return
+				}
+				var dels []ssa.Instruction
+				allInstrs(cl, func(y ssa.Instruction) {
+					if ci, isC := y.(ssa.CallInstruction); isC && CalleeName(ci.Common()) == "builtin.delete" && IsFieldLoad(ci.Common().Args[0], wk+".Pool", "creating") {
+						dels = append(dels, y)
+					}
+				})
+				all := len(dels) > 0
+				for _, e := range Exits(cl) {
+					if !MustPassFromEntry(cl, e, dels) {
+						all = false
+					}
+				}
+				if all {
+					okDel = true
+				}
+			})
+			r.Check(okDel, "C15-R7", fn, "wp.creating[secret] = … ⇒ delete on every path", in.Pos(), "the pending-create entry never outlives the request", "a failed cloud Create leaves a permanent wp.creating entry: Unallocated() keeps counting a worker that will never exist, so the scheduler never creates another and the container waits forever")
+		})
+		if nIns == 0 {
+			r.Bad("C15-R7", fn, "wp.creating insert", fn.Pos(), "not found")
+		}
+	}
+
 	// ---- R6
 	r.Rule("C15-R6", "removing a runner from worker.running re-evaluates Running→Idle (state = StateIdle when state==Running ∧ len(running)+len(starting)==0) before the lock is released", 1)
 	idle := stateConst(w, "StateIdle")
